@@ -35,7 +35,11 @@ RULE = ("Programs of 4-10 lines from statement templates carrying 6-character ma
         "and ,A; PEEK at addresses inside the program area, in expressions, assignments, after DEF "
         "SEG, in a direct FOR loop; BSAVE over the program area; MERGE, CHAIN MERGE; entering, "
         "replacing and deleting lines; each also behind 'X=1:', 'PRINT 1;:', 'IF 1 THEN', and after "
-        "ERROR 5; POKE at the protection flag; neutral statements.  Non-trivial: every probe that "
+        "ERROR 5; neutral statements; multi-step bypass histories: POKE / BLOAD (flag and memory "
+        "images saved before the protected program was loaded) / DEF SEG aliases aimed at the "
+        "protection flag (address found by diffing a PEEK dump, not by name) and at the program "
+        "area, each followed by disclosure probes; finally NEW / LOAD / CHAIN / RUN of a helper "
+        "and a PEEK sweep, LIST and SAVE ,A over what is left.  Non-trivial: every probe that "
         "reaches a statement touching program memory (all but the neutral ones); a case is "
         "non-trivial if it holds such a probe; distinct = distinct case (program x state x entry x "
         "probe list).")
@@ -112,7 +116,7 @@ MUST_IFC = {'LIST', 'LLIST', 'EDIT', 'SAVE', 'PEEK', 'BSAVE', 'MERGE', 'CHAIN-ME
 PREFIXES = ['', '', '', 'X=1:', 'PRINT 1;:', 'IF 1 THEN ']
 
 
-def build_probes(rng, linenos, code_start, code_size, count):
+def build_probes(rng, linenos, code_start, code_size, count, flag=1450, ds=0):
     def ln():
         return rng.choice(linenos)
 
@@ -148,13 +152,42 @@ def build_probes(rng, linenos, code_start, code_size, count):
                                             'CHAIN MERGE "E.BAS"', 'CHAIN MERGE "E.BAS",%d' % ln()])],
         lambda: ['LINE', rng.choice(['%d PRINT "X"' % ln(), '%d' % ln(), '7 REM NEW',
                                      '%d REM' % (ln() + 1)])],
-        lambda: ['POKE-FLAG', rng.choice(['POKE 1450,0', 'DEF SEG:POKE 1450,0', 'POKE 1450,255'])],
         lambda: ['NEUTRAL', rng.choice(['X=1', 'PRINT 2+2', 'CLEAR', 'DEF SEG=0', 'DEF SEG',
                                         'ERROR 5', 'PRINT FRE(0)', 'FILES', 'PRINT VARPTR(X)',
                                         'PRINT ERR;ERL', 'WIDTH 80', 'KEY OFF'])],
     ]
+    def disclosure():
+        return rng.choice([
+            ['LIST', lst('LIST')], ['SAVE', 'SAVE "SD",A'], ['PEEK', 'PRINT PEEK(%d)' % addr()],
+            ['EDIT', 'EDIT %d' % ln()], ['BSAVE', 'BSAVE "BV",%d,64' % code_start],
+            ['LLIST', 'LLIST'], ['LIST', 'LIST ,"LS3.TXT"']])
+
+    def bypass():
+        """Statements that write memory, aimed at the protection flag or the program area; files
+        they use were prepared before the protected program was loaded."""
+        k = rng.randrange(1, 4)
+        return ['BYPASS', rng.choice([
+            'POKE %d,0' % flag, 'DEF SEG:POKE %d,0' % flag,
+            'DEF SEG=%d:POKE %d,0' % (ds - k, flag + 16 * k),
+            'DEF SEG=&H%X:POKE &H%X,0' % (ds - k, flag + 16 * k),
+            'X=0:POKE %d,X' % flag, 'FOR I=%d TO %d:POKE I,0:NEXT' % (flag - 1, flag + 1),
+            'BLOAD "FLAG0.BIN"', 'BLOAD "FLAG0.BIN",%d' % flag, 'DEF SEG:BLOAD "FLAG0.BIN"',
+            'DEF SEG=%d:BLOAD "FLAG0.BIN",%d' % (ds - k, flag + 16 * k),
+            'X=1:BLOAD "FLAG0.BIN"', 'IF 1 THEN BLOAD "FLAG0.BIN"', 'BLOAD "LOW.BIN"',
+            'BLOAD "LOW.BIN",%d' % (flag - 4),
+            'BLOAD "ZERO.BIN",%d' % (code_start + 4), 'POKE %d,0' % (code_start + 1),
+            'POKE %d,58' % addr(), 'DEF SEG=%d:POKE %d,0' % (ds + 1, code_start - 12),
+            'ERROR 5:BLOAD "FLAG0.BIN"', 'POKE %d,0:LIST' % flag, 'BLOAD "FLAG0.BIN":LIST',
+        ])]
+
     probes = []
     for _ in range(count):
+        if rng.random() < 0.3:
+            probes.append(bypass())
+            probes.append(disclosure())
+            if rng.random() < 0.5:
+                probes.append(disclosure())
+            continue
         cls, text = rng.choice(pool)()
         if cls in MUST_IFC and cls != 'LINE':
             pre = rng.choice(PREFIXES)
@@ -166,6 +199,41 @@ def build_probes(rng, linenos, code_start, code_size, count):
 
 
 # ---------------------------------------------------------------------------------------------
+# where the protection flag lives: found by observation, not by name.  A scanner program dumps the
+# data segment below the program area once unprotected and once loaded from its ,P file (PEEK is
+# allowed to a running program); the bytes that differ are the flag.  Done once per process.
+
+_FLAG = {}
+SCANNER = ('10 DEF SEG:OPEN "O",1,"SCAN.DAT":FOR I=0 TO %d:PRINT#1,CHR$(PEEK(I));:NEXT:CLOSE\r\n')
+
+
+def flag_addresses():
+    if 'a' in _FLAG:
+        return _FLAG['a']
+    found = []
+    sb = harness.Sandbox()
+    try:
+        with harness.Sess(sandbox=sb, hide_protected=True, budget=400000) as s:
+            top = int(s.evaluate('PEEK(&H30)+256*PEEK(&H31)').value) - 1
+            with open(os.path.join(sb.z, 'S.TXT'), 'wb') as f:
+                f.write((SCANNER % top).encode())
+            s.execute('LOAD "S.TXT"\nSAVE "SP",P\nRUN')
+            with open(os.path.join(sb.z, 'SCAN.DAT'), 'rb') as f:
+                plain = f.read()
+        with harness.Sess(sandbox=sb, hide_protected=True, budget=400000) as s:
+            s.execute('RUN "SP"')
+            with open(os.path.join(sb.z, 'SCAN.DAT'), 'rb') as f:
+                prot = f.read()
+        if len(plain) == len(prot):
+            found = [i for i in range(len(plain)) if plain[i] != prot[i]]
+    except Exception:           # noqa: B902 -- fall back to the documented address
+        found = []
+    finally:
+        sb.close()
+    _FLAG['derived'] = bool(found) and len(found) <= 4
+    _FLAG['a'] = found if _FLAG['derived'] else [1450]
+    return _FLAG['a']
+
 
 def scan(blob, markers):
     """Markers occurring in a byte string (case-insensitive on letters)."""
@@ -204,6 +272,15 @@ def check_case(case):
             o = s0.execute('SAVE "PROT",P')
             if o.kind != 'ok' or o.errors:
                 raise AssertionError('cannot save protected original: %r' % (o,))
+            # helper files for the bypass histories, made while nothing is protected
+            flag = flag_addresses()[0]
+            o = s0.execute('DEF SEG:BSAVE "FLAG0.BIN",%d,1\nBSAVE "LOW.BIN",%d,8\n'
+                           'BSAVE "ZERO.BIN",%d,16' % (flag, flag - 4, flag))
+            if o.kind != 'ok' or o.errors:
+                raise AssertionError('cannot prepare helper images: %r' % (o,))
+            with open(os.path.join(sb.z, 'FLAG0.BIN'), 'rb') as f:
+                hdr = f.read()
+            ds = hdr[1] | (hdr[2] << 8)          # BSAVE header: FD seg offset length
             ref = s0.execute('RUN')
             ref_out = (ref.kind, ref.output)
         os.remove(os.path.join(sb.z, 'PLAIN.TXT'))
@@ -214,6 +291,8 @@ def check_case(case):
                 original, markers))
         with open(os.path.join(sb.z, 'M.BAS'), 'wb') as f:
             f.write(b'1000 PRINT "MERGED"\r\n1010 END\r\n')
+        with open(os.path.join(sb.z, 'H.BAS'), 'wb') as f:
+            f.write(b'10 X=1\r\n20 END\r\n')
         with open(os.path.join(sb.z, 'E.BAS'), 'wb') as f:
             f.write(b'\r\n')            # nothing to merge: only chain_'s own guard can refuse it
         lpt = sb.path('lpt1.out')
@@ -248,7 +327,8 @@ def check_case(case):
             res.label('state.' + state)
             if not s.impl.program.protected:
                 raise AssertionError('program not flagged protected after entry %s/%s' % (state, entry))
-            probes = build_probes(rng, linenos, code_start, code_size, case['nprobes'])
+            probes = build_probes(rng, linenos, code_start, code_size, case['nprobes'], flag, ds)
+            res.label('flag-address.%s' % ('derived' if _FLAG.get('derived') else 'fallback'))
             before = list_files(sb.z)
             lpt_seen = 0
             for cls, ptext in probes:
@@ -278,7 +358,7 @@ def check_case(case):
                     res.nt(True)
                     if o.err != 5:
                         res.fail('not-refused.%s' % cls, '%s\n-> %r' % (where, o))
-                elif cls == 'POKE-FLAG':
+                elif cls == 'BYPASS':
                     res.nt(True)
                 # disclosure scan
                 found = scan(o.output, markers)
@@ -332,6 +412,30 @@ def check_case(case):
             if (o.kind, o.output) != ref_out:
                 res.fail('run.differs', 'protected RUN -> %r %r\noriginal -> %r' % (
                     o.kind, o.output, ref_out))
+            # 5. finale: get rid of the program, then look for what it left behind
+            fin = rng.choice(['NEW', 'LOAD "H.BAS"', 'CHAIN "H.BAS"', 'RUN "H.BAS"', 'CLEAR:NEW'])
+            res.label('finale.' + fin.split()[0])
+            s.execute('CLS')
+            blob = b''
+            steps = [fin, 'DEF SEG', 'LIST', 'SAVE "AFTER",A']
+            for a in range(code_start - 8, code_start + code_size + 16, 200):
+                steps.append('PA$="":FOR I=%d TO %d:PA$=PA$+CHR$(PEEK(I)):NEXT' % (a, a + 207))
+            for st_ in steps:
+                o = s.execute(st_)
+                if o.kind == 'escaped':
+                    res.fail('escaped.%s@%s' % (o.exc, o.frame), 'finale %r after %r\n%s' % (
+                        st_, fin, o.tb))
+                    return res
+                blob += o.output + b'\n'.join(s.chars())
+                v = s.get('PA$')
+                if isinstance(v, bytes):
+                    blob += v
+            for name, data in list_files(sb.z).items():
+                if before.get(name) != data:
+                    blob += data
+            if scan(blob, markers):
+                res.fail('disclosed.after-%s' % fin.split()[0].rstrip(':'),
+                         'after %r the old program still shows: %r' % (fin, scan(blob, markers)))
     finally:
         sb.close()
     return res
